@@ -134,7 +134,7 @@ def run_stdio_script(steps: List[Any], *, chunks: Optional[List[Any]] = None,
 def run_multi_stdio(script: List[Any], *, tie_seed: Optional[int] = None) -> Dict[str, Any]:
     """Several StdioClient objects in one process / one loop, alive at the same time or one after the other,
     each owned by its own task (as independent sessions of an application would be).
-    script ops: ("open", name) ("feed", name, chunk) ("send", name, obj) ("settle",) ("close", name).
+    script ops: ("open", name) ("feed", name, chunk) ("send", name, obj) ("version", name, v) ("settle",) ("close", name).
     Returns {name: {"read": [...], "notes": [...], "stdin": bytes}}."""
     import importlib
     SC = importlib.import_module("chuk_mcp.transports.stdio.stdio_client")
@@ -174,6 +174,8 @@ def run_multi_stdio(script: List[Any], *, tie_seed: Optional[int] = None) -> Dic
                         proc.feed(arg)
                     elif op == "send":
                         await write.send(arg)
+                    elif op == "version":
+                        client.set_protocol_version(arg)
                     elif op == "close":
                         await settle()
                         for t in tasks:
@@ -206,7 +208,7 @@ def run_multi_stdio(script: List[Any], *, tie_seed: Optional[int] = None) -> Dic
                 live[st[1]] = (q, t)
                 await ready.wait()
                 await settle()
-            elif op in ("feed", "send"):
+            elif op in ("feed", "send", "version"):
                 await tell(st[1], op, st[2])
             elif op == "settle":
                 await settle()
